@@ -23,9 +23,9 @@ package poolsim
 import (
 	"fmt"
 	"reflect"
-	"strconv"
 	"runtime"
 	"sort"
+	"strconv"
 	"strings"
 	"sync"
 	"testing/synctest"
